@@ -796,6 +796,19 @@ func (c *specCtx) call(x *SCall) Val {
 		v := c.eval(x.Args[0])
 		return c.intV(v.S)
 	}
+	// type conversion T(x)
+	if t := c.lookupType(x.Fun); t != nil && len(x.Args) == 1 {
+		v := c.eval(x.Args[0])
+		if v.Ty != nil {
+			if vc.sortOf(t) == v.Sort {
+				return Val{S: v.S, Ty: t, Sort: v.Sort}
+			}
+			if r, ok := vc.structConv(v, t); ok {
+				return r
+			}
+		}
+		return c.fail("conversion %s(...) not supported in specs", x.Fun)
+	}
 	// uninterpreted spec functions
 	if uf, ok := vc.eng.ufuns[x.Fun]; ok {
 		return c.ufunCall(uf, x)
